@@ -1227,4 +1227,235 @@ Proof.
   assert (E2 : nann x' = nann x) by (unfold nann; rewrite Er, En; reflexivity).
   destruct C. constructor; rewrite ?E1, ?E2, ?Er, ?Ed, ?Ew, ?En; auto.
 Qed.
+
+Lemma NoDup_app_snoc {A} (l : list A) a : NoDup l -> ~ In a l -> NoDup (l ++ [a]).
+Proof.
+  induction l as [|b l IH]; cbn; intros H Hn; [constructor; [intros []|constructor]|].
+  inversion H; subst. constructor.
+  - rewrite in_app_iff. cbn. intuition.
+  - apply IH; auto.
+Qed.
+
+Lemma step_WfXchg n p k :
+  stk (base x) t = stk_of t (PW (WfXchg n) p k) -> L (view_of x t) (PW (WfXchg n) p k) ->
+  X x t (PW (WfXchg n) p k) -> Inv (gstep x t).
+Proof.
+  intros Hs HL HX. gred Hs. cbn. destruct HX as [HX1 HX2]. cbn in HX1, HX2.
+  destruct HL as ((Hpl & Hnq) & Hl). cbn in Hnq.
+  assert (Hpn : In n (priv x t)) by (apply priv_extra; rewrite Hs; cbn; auto).
+  pose proof (I_N x HI) as N. pose proof (I_chain x N) as Hch.
+  assert (Hfn : fnode m t = O) by apply Hpl.
+  set (x' := mkI _ _ _ _ _ _ _).
+  assert (Hinq : forall u, In u (map fst (gq x ++ [(t, n)])) <-> (In u (map fst (gq x)) \/ u = t)).
+  { intros u. rewrite map_app, in_app_iff. cbn. intuition. }
+  constructor.
+  - intros u. destruct (Nat.eq_dec u t) as [->|Nu].
+    + exists (PW (WfLink (qtail m 0) n) p k). split; [cbn; apply upd_same|]. split.
+      * split; [split; [exact Hpl|]|exact Hl]. cbn. apply Hinq. auto.
+      * cbn. split; [|split].
+        -- apply pred_of_snoc; auto.
+        -- apply (chain_ok_tail0 m _ _ Hch).
+        -- apply in_or_app. right. cbn. auto.
+    + revert u Nu. apply others_ok; [stk_other| |].
+      * intros u Hu. unfold view_eqv, view_of. cbn. rewrite Hinq. intuition.
+      * intros u q Hu Hq HLq HXq.
+        xcases q; try exact HXq; revert HXq; unfold X, Xk; cbn [x' base mem gq set_qtail ndata nnext qhead].
+        intros (A & B & C). split; [apply pred_of_app; exact A|]. split; [exact B|].
+        apply in_or_app. auto.
+  - apply (I_slots x HI).
+  - apply debt_k_frame; [reflexivity|stk_other|nodebt Hs].
+  - apply invC_frame_gq; try reflexivity. cbn. intros u n' Hu. apply in_app_or in Hu.
+    destruct Hu as [Hu|[[= <- <-]|[]]]; [apply (I_gq_role x (I_C x HI) u n' Hu)|apply Hpl].
+  - assert (Hp' : forall u, u <> t -> priv x' u = priv x u).
+    { intros u Hu. unfold priv. cbn. rewrite !upd_other by exact Hu. reflexivity. }
+    assert (Hpt : priv x' t = []).
+    { unfold priv. cbn. rewrite upd_same, Hfn. reflexivity. }
+    assert (Hc' : chain x' = chain x ++ [n]).
+    { unfold chain. cbn. rewrite map_app. reflexivity. }
+    assert (Hprv : forall u n', In n' (priv x' u) -> In n' (priv x u) /\ u <> t).
+    { intros u n' Hn'. destruct (Nat.eq_dec u t) as [->|Hu]; [rewrite Hpt in Hn'; destruct Hn'|].
+      rewrite (Hp' u Hu) in Hn'. auto. }
+    destruct N. constructor; rewrite ?Hc'.
+    + cbn. rewrite map_app. cbn. apply NoDup_app_snoc; auto.
+    + apply NoDup_app_snoc; auto. apply (I_priv_chain0 t n Hpn).
+    + intros n' Hn'. apply in_app_or in Hn'. destruct Hn' as [Hn'|[<-|[]]]; [auto|].
+      apply (I_priv_nz0 t n Hpn).
+    + cbn. apply chain_ok_snoc; auto.
+    + cbn [x' base mem gq set_qtail ndata]. intros u n' Hu. apply in_app_or in Hu.
+      destruct Hu as [Hu|[[= <- <-]|[]]]; [auto|exact HX1].
+    + intros u n' Hn'. apply Hprv in Hn'. apply (I_priv_nz0 u n'). tauto.
+    + intros u. destruct (Nat.eq_dec u t) as [->|Hu]; [rewrite Hpt; constructor|rewrite (Hp' u Hu); auto].
+    + intros a b n' Hab Ha Hb. apply Hprv in Ha. apply Hprv in Hb.
+      apply (I_priv_disj0 a b n' Hab); tauto.
+    + intros u n' Hn' Hin. apply Hprv in Hn'. destruct Hn' as [Hn' Hu].
+      apply in_app_or in Hin. destruct Hin as [Hin|[<-|[]]]; [apply (I_priv_chain0 u n' Hn' Hin)|].
+      apply (I_priv_disj0 t u n); auto.
+Qed.
+
+Lemma pred_of_inj a l u w b :
+  NoDup (a :: map snd l) -> pred_of a l u = Some b -> pred_of a l w = Some b -> u = w.
+Proof.
+  revert a. induction l as [|[v n] r IH]; intros a ND; cbn; [discriminate|].
+  cbn in ND. inversion ND as [|? ? Ha ND']; subst.
+  destruct (Nat.eqb_spec v u), (Nat.eqb_spec v w); try congruence.
+  - intros [= <-] H. apply pred_of_in in H. exfalso. apply Ha. cbn. destruct H; auto.
+  - intros H [= <-]. apply pred_of_in in H. exfalso. apply Ha. cbn. destruct H; auto.
+  - apply IH. exact ND'.
+Qed.
+
+Lemma chain_ok_link (mm : kmem) h l u a n :
+  NoDup (h :: map snd l) -> NoDup (map fst l) ->
+  chain_ok mm h l -> pred_of h l u = Some a -> In (u, n) l ->
+  chain_ok (set_nnext mm a n) h l.
+Proof.
+  revert h. induction l as [|[v n'] r IH]; intros h ND1 ND2; cbn; [discriminate|].
+  cbn in ND1, ND2. inversion ND1 as [|? ? Hh ND1']; inversion ND2 as [|? ? Hv ND2']; subst.
+  intros [H1 H2] Hp Hin. destruct (Nat.eqb_spec v u) as [->|Nv].
+  - injection Hp as <-. assert (n' = n) as ->.
+    { destruct Hin as [[= ->]|Hin]; [reflexivity|]. exfalso. apply Hv. apply (in_map fst) in Hin. exact Hin. }
+    rewrite upd_same. split; [auto|].
+    apply (chain_ok_ext2 mm); [|reflexivity|exact H2].
+    intros n' Hn'. cbn. apply upd_other. intros ->. apply Hh. cbn. destruct Hn'; auto.
+  - assert (Ha : a <> h).
+    { intros ->. apply pred_of_in in Hp. apply Hh. cbn. destruct Hp; auto. }
+    rewrite upd_other by auto. split; [exact H1|].
+    apply IH; auto. destruct Hin as [[= -> ->]|Hin]; [congruence|exact Hin].
+Qed.
+
+Lemma step_WfLink a n p k :
+  stk (base x) t = stk_of t (PW (WfLink a n) p k) -> L (view_of x t) (PW (WfLink a n) p k) ->
+  X x t (PW (WfLink a n) p k) -> Inv (gstep x t).
+Proof.
+  intros Hs HL HX. gred Hs. cbn. destruct HX as (HX1 & HX2 & HX3). cbn in HX1, HX2, HX3.
+  destruct HL as ((Hpl & Hq) & Hl). cbn in Hq.
+  pose proof (I_N x HI) as N.
+  pose proof (pred_in_chain t a HX1) as Hac.
+  set (x' := mkI _ _ _ _ _ _ _).
+  constructor.
+  - intros u. destruct (Nat.eq_dec u t) as [->|Nu].
+    + exists (PW WfY p k). split; [cbn; apply upd_same|]. split; [|exact I].
+      split; [|exact Hl]. left. destruct Hpl as (P1 & P2 & P3 & P4 & P5 & P6).
+      unfold preflip, wq. cbn in *. rewrite P4. repeat split; auto. discriminate.
+    + revert u Nu. apply others_ok; [stk_other|view_other|].
+      intros u q Hu Hq' HLq HXq.
+      xcases q; try exact HXq; revert HXq; unfold X, Xk; cbn [x' base mem gq set_nnext ndata nnext qhead].
+      * intros (A & B). rewrite upd_other; [tauto|]. intros ->.
+        apply (I_priv_chain x N u a); [apply priv_extra; rewrite Hq'; cbn; auto|exact Hac].
+      * intros (A & B & C). rewrite upd_other; [tauto|]. intros ->. apply Hu.
+        apply (pred_of_inj (qhead m 0) (gq x) u t a); auto. apply (I_chain_nd x N).
+      * intros (A & B & C & D). rewrite upd_other; [tauto|]. intros ->. congruence.
+  - apply (I_slots x HI).
+  - apply debt_k_frame; [reflexivity|stk_other|nodebt Hs].
+  - apply (invC_frame x); try reflexivity. apply (I_C x HI).
+  - assert (Hp' : forall u, priv x' u = priv x u).
+    { intros u. unfold priv. cbn. destruct (Nat.eq_dec u t) as [->|Hu];
+      [rewrite upd_same, Hs; reflexivity|rewrite upd_other by exact Hu; reflexivity]. }
+    destruct N. constructor; try assumption.
+    + cbn. apply chain_ok_link with (u := t); auto.
+    + intros u n'. rewrite Hp'. apply I_priv_nz0.
+    + intros u. rewrite Hp'. apply I_priv_nd0.
+    + intros u w n'. rewrite !Hp'. apply I_priv_disj0.
+    + intros u n'. rewrite Hp'. apply I_priv_chain0.
+Qed.
+
+(* a queued waiter (not at WLink) is handed the lock by popper w *)
+Lemma L_pop v p w :
+  L v p -> vinq v -> (forall a n pp k, p <> PW (WfLink a n) pp k) ->
+  L (mkV (vfs v) (vfn v) (vpd v) (vbl v) Owner (HPopped w) (vul v) (vuc v) False) p.
+Proof.
+  destruct v as [fs fn pd bl ro ha ul uc inq]. cbn [vfs vfn vpd vbl vul vuc vinq].
+  intros HL Hq Hn.
+  destruct p as [| | | | | | |[] ? ?|[] ? ?| |]; try (exfalso; eapply Hn; reflexivity);
+  revert HL; unfold L, Lw, Lk, kbase, calm, done_log, preflip, resumed, prelink, wq, settled;
+  cbn [vfs vfn vpd vbl vro vha vul vuc vinq]; try tauto;
+  destruct ha; try tauto; intuition (try discriminate; try congruence).
+Qed.
+
+Lemma L_K_not_inq v kf pp k : L v (PK kf pp k) -> ~ vinq v.
+Proof. intros (((_ & _ & _ & H & _) & _) & _). exact H. Qed.
+
+Lemma step_KfSet h nx p k :
+  (t < nthr (base x))%nat ->
+  stk (base x) t = stk_of t (PK (KfSet h nx) p k) -> L (view_of x t) (PK (KfSet h nx) p k) ->
+  X x t (PK (KfSet h nx) p k) -> Inv (gstep x t).
+Proof.
+  intros Ht Hs HL HX. destruct HX as (Hd & Hh & Hn & Hnz). cbn in Hd, Hh, Hn, Hnz. subst h.
+  pose proof (I_N x HI) as N. pose proof (I_C x HI) as C.
+  destruct (debt_facts t Hd) as [Hno Hna].
+  destruct HL as (Hk & Hul & _). specialize (Hul eq_refl). cbn in Hul.
+  assert (Hrt : role x t = Idle) by apply Hk.
+  (* the queue is not empty and its first node is nx *)
+  pose proof (I_chain x N) as Hch.
+  destruct (gq x) as [|[f nx'] rest] eqn:Eq; cbn in Hch; [destruct Hch; congruence|].
+  destruct Hch as [Hlk Hch]. assert (nx' = nx) by (destruct Hlk; congruence). subst nx'.
+  assert (Hin : In (f, nx) (gq x)) by (rewrite Eq; cbn; auto).
+  pose proof (I_gq_ent x N f nx Hin) as Hdat.
+  pose proof (I_gq_role x C f nx Hin) as Hrf.
+  assert (Hft : f <> t) by congruence.
+  pose proof (I_gq_nd x N) as ND1. rewrite Eq in ND1. cbn in ND1. apply NoDup_cons_iff in ND1 as [Hfr ND1'].
+  pose proof (I_chain_nd x N) as ND2. unfold chain in ND2. rewrite Eq in ND2. cbn in ND2.
+  apply NoDup_cons_iff in ND2 as [Hhr ND2'].
+  gred Hs. cbn -[tid_of_name]. rewrite Hdat, tid_of_fname, Eq, Hul. cbn [tl app].
+  set (x' := mkI _ _ _ _ _ _ _).
+  assert (Hst : forall u, u <> t -> stk (base x') u = stk (base x) u) by stk_other.
+  constructor.
+  - intros u. destruct (Nat.eq_dec u t) as [->|Nu]; [|destruct (Nat.eq_dec u f) as [->|Nf]].
+    + exists (PK (KfData (qhead m 0) nx) p k). split; [cbn; apply upd_same|]. split.
+      * revert Hk. unfold L, Lk, kbase, calm. subst x'. vw. cbn. rewrite !upd_other by auto.
+        rewrite Eq. cbn. intuition discriminate.
+      * cbn. split; [reflexivity|]. exists f. split; [exact Hdat|].
+        unfold popping. cbn. rewrite !upd_same. auto.
+    + destruct (I_thr x HI f) as (q & Q1 & Q2 & Q3). exists q. rewrite (Hst f Nu).
+      split; [exact Q1|].
+      assert (Hnl : forall a n pp kk, q <> PW (WfLink a n) pp kk).
+      { intros a n pp kk ->. destruct Q3 as (A & B & _). rewrite Eq in A. cbn in A.
+        rewrite Nat.eqb_refl in A. injection A as <-. congruence. }
+      split.
+      * eapply L_eqv; [|apply (L_pop _ q t Q2); [cbn; rewrite Eq; cbn; auto|exact Hnl]].
+        unfold view_eqv, view_of. cbn. rewrite !upd_same, !upd_other by auto. tauto.
+      * xcases q; try exact Q3; try (exfalso; eapply Hnl; reflexivity);
+        exfalso; apply (L_K_not_inq _ _ _ _ Q2); cbn; rewrite Eq; cbn; auto.
+    + assert (thr_ok x' u); [|assumption].
+      revert u Nu Nf. intros u Nu Nf. destruct (I_thr x HI u) as (q & Q1 & Q2 & Q3). exists q.
+      rewrite (Hst u Nu). split; [exact Q1|]. split.
+      * eapply L_eqv; [|exact Q2]. unfold view_eqv, view_of. cbn. rewrite !upd_other by auto.
+        rewrite Eq. cbn. intuition congruence.
+      * assert (Hnp : forall g hh, popping x u g hh -> False).
+        { intros g hh (_ & Po & _). apply (nown0_no_owner g Hno Po). }
+        xcases q; try exact Q3; revert Q3; unfold X, Xk; cbn [x' base mem gq debt set_qhead ndata nnext qhead];
+        rewrite ?upd_same;
+        try (intros Q; exfalso; apply Nu; (congruence || (destruct Q as [Q ?]; congruence))).
+        -- rewrite Eq. cbn. destruct (Nat.eqb_spec f u); [congruence|]. intros (A & B & [Cc|Cc]); [congruence|auto].
+        -- intros (_ & g & _ & Q). destruct (Hnp _ _ Q).
+        -- intros (g & _ & Q). destruct (Hnp _ _ Q).
+        -- intros (g & _ & Q). destruct (Hnp _ _ Q).
+        -- intros Q. destruct (Hnp _ _ Q).
+        -- intros (Q & _). destruct (Hnp _ _ Q).
+  - apply (I_slots x HI).
+  - intros d Hdd. discriminate.
+  - assert (Hf_lt : (f < nthr (base x))%nat) by (apply (I_role_lt x C); congruence).
+    pose proof (cnt_upd (fun u => is_owner (upd (role x) f Owner u)) (fun u => is_owner (role x u))
+                  (nthr (base x)) f Hf_lt) as N1. cbn beta in N1. rewrite upd_same, Hrf in N1.
+    pose proof (cnt_upd (fun u => is_ann (upd (role x) f Owner u)) (fun u => is_ann (role x u))
+                  (nthr (base x)) f Hf_lt) as N2. cbn beta in N2. rewrite upd_same, Hrf in N2.
+    cbn [is_owner is_ann] in N1, N2.
+    assert (N1' : (nown x' = nown x + 1)%nat).
+    { unfold nown. cbn [x' base role nthr]. rewrite Nat.add_0_r in N1. apply N1.
+      intros u Hu. now rewrite upd_other. }
+    assert (N2' : (nann x' + 1 = nann x)%nat).
+    { unfold nann. cbn [x' base role nthr]. rewrite Nat.add_0_r in N2. apply N2.
+      intros u Hu. now rewrite upd_other. }
+    constructor; cbn [x' base role debt gq mem nthr set_qhead word].
+    + intros u Hu. destruct (Nat.eq_dec u f) as [->|Nf]; [exact Hf_lt|].
+      rewrite upd_other in Hu by exact Nf. apply (I_role_lt x C u Hu).
+    + intros a b. unfold upd. destruct (Nat.eqb_spec a f), (Nat.eqb_spec b f); try congruence;
+      intros Ha Hb; exfalso; first [apply (nown0_no_owner b Hno Hb)|apply (nown0_no_owner a Hno Ha)].
+    + discriminate.
+    + discriminate.
+    + intros _. left. lia.
+    + rewrite (I_count x C). lia.
+    + intros u n Hu. rewrite upd_other; [apply (I_gq_role x C u n); rewrite Eq; cbn; auto|].
+      intros ->. apply Hfr. apply (in_map fst) in Hu. exact Hu.
+  - admit.
+Admitted.
 End Steps.
